@@ -64,6 +64,19 @@ FarkasGen(hyp, nameSeq, t, h, exact) ==
 FarkasOK(hyp, nameSeq, t, h) == FarkasGen(hyp, nameSeq, t, h, FALSE)
 \* the same with no tolerance at all: hyp /\ box => t exactly
 FarkasExact(hyp, nameSeq, t, h) == FarkasGen(hyp, nameSeq, t, h, TRUE)
+\* certificates that do not lean on the box rows (facts about the unbounded polyhedron)
+NoBox(hyp, h) == \A key \in DOMAIN h.lam : h.lam[key] = 0 \/ \E i \in 1..Len(hyp) : key = ToString(i)
+\* hyp => t with a margin of at least tol: t is implied "with room to spare" (C07 irredundancy)
+FarkasMargin(hyp, nameSeq, t, h) ==
+  LET n == Len(hyp)
+      used == {i \in 1..n : Lam(h, i) # 0}
+      bound == PSum(used, LAMBDA i : Lam(h, i) * hyp[i].c)
+      slackD == bound - h.mu * t.c
+  IN /\ h.mu > 0 /\ NoBox(hyp, h)
+     /\ \A i \in 1..n : Lam(h, i) >= 0
+     /\ \A v \in Rng(nameSeq) \cup RowsVars(hyp) \cup RowVars(t) :
+           PSum(used, LAMBDA i : Lam(h, i) * Coef(hyp[i], v)) = h.mu * Coef(t, v)
+     /\ slackD < 0 /\ slackD * 10000 + h.mu * (t.k + Abs(t.c)) <= 0
 \* Farkas infeasibility of hyp inside the box
 InfeasOK(hyp, nameSeq, h) ==
   LET rows == hyp \o BoxRows(nameSeq)
